@@ -21,7 +21,7 @@ from ..report import Ctx
 from ..selftest import Mutant
 
 PROP = "C18"
-TECHNIQUE = "static analysis: condition-directed reachability of eager calls under lazy=True + CFG typestate rules of _LazyFunction.evaluate (guard, flag, result) + container-recursion coverage + task-graph edge direction and who-writes rules + container-rebuild rule + every-reaching-definition rule for the resolved arguments + identity-preserving (unshared) cache option derived from `lazy` for every cache class + container-kind coverage of task-graph edges + who-may-force rule over the call graph of Pipeline._run + mutated mutable defaults + resolve-after-merge ordering in PipeFunc.__call__ + identity in the shared construct_dag cache key"
+TECHNIQUE = "static analysis: condition-directed reachability of eager calls under lazy=True + CFG typestate rules of _LazyFunction.evaluate (guard, flag, result) + container-recursion coverage + task-graph edge direction and who-writes rules + container-rebuild rule + every-reaching-definition rule for the resolved arguments + identity-preserving (unshared) cache option derived from `lazy` for every cache class + container-kind coverage of task-graph edges + who-may-force rule over the call graph of Pipeline._run + mutated mutable defaults + resolve-after-merge ordering in PipeFunc.__call__ + identity in the shared construct_dag cache key + look-ahead container kinds vs rebuilt kinds + deferred objects hold nothing unpicklable + helper-split evaluate_lazy read as one scope"
 EXPLANATION = (
     "Static analysis of pipefunc/lazy.py and of the lazy arms in _pipeline/_base.py and _pipefunc.py: CFG dominance and "
     "must-pass-through queries for the memoisation typestate of _LazyFunction.evaluate, def-use of the call arguments, "
